@@ -24,7 +24,7 @@ SEL = ("min", "max", "first", "last")
 
 def cases(tier, seed):
     out = []
-    N, G = (3, 2) if tier == "quick" else (5, 2)
+    N, G = (3, 2) if tier == "quick" else (6, 2)
     dts = INT_DT + ["bool", "float32", "float64"] + TIME_DT
     if tier == "quick":
         dts = ["int8", "int32", "int64", "uint16", "uint64", "bool", "float32", "float64", "datetime64[s]", "datetime64[us]", "datetime64[ns]", "timedelta64[s]"]
@@ -243,7 +243,7 @@ def replay_layout(case, conc):
 
 META = {
     "bounds": {"quick": {"N": 3, "G": 2, "dtypes": 12, "layouts": "N=4, 2 key chunks x 2 value chunks"},
-               "thorough": {"N": 5, "G": 2, "dtypes": "every integer width, bool, float32/64, datetime64[s|ms|us|ns], timedelta64[s|ns]", "layouts": "N=5, 2 key chunks x <= 3 value chunks"}},
+               "thorough": {"N": 6, "G": 2, "dtypes": "every integer width, bool, float32/64, datetime64[s|ms|us|ns], timedelta64[s|ns]", "layouts": "N=5, 2 key chunks x <= 3 value chunks"}},
     "enumerated": ["dtype (width, signedness, time unit)", "operation", "thread count", "chunk layouts of keys and values"],
     "symbolic": ["group codes", "values over the whole range of the dtype (64-bit sums bounded so that they fit) and null flags", "mask bits"],
     "assumptions": ["result dtype read from the proxies, which carry real numpy dtype metadata through the real _build_target_for_groupby / _cast_timestamps_to_ints / astype / view code",
